@@ -2262,6 +2262,13 @@ def tier_a_tasks(ck):
     for cross in (False, True):
         specs.append(('fam_buildtype_configure', dict(cross=cross)))
         specs.append(('fam_conf_flag', dict(cross=cross)))
+    # ---- the machine-file source given as several layered files
+    for cross in (False, True):
+        specs.append(('fam_layers', dict(cross=cross, nfiles=2, dict_form=cross, mstr=cross)))
+        if ck.thorough:
+            specs.append(('fam_layers', dict(cross=cross, nfiles=3, dict_form=not cross, mstr=not cross)))
+    if os.environ.get('C07_FAMS'):      # development aid: only the generators whose name contains one of the given texts
+        specs = [sp for sp in specs if any(x in sp[0] for x in os.environ['C07_FAMS'].split(','))]
     return specs
 
 
@@ -2304,7 +2311,7 @@ def prefix_counters(case):
 def work_a_task(task):
     (gname, kwargs), shard = task
     agg = {'n': 0, 'skipped_cases': 0, 'classes': set(), 'fams': {}, 'tot': {}, 'multi': 0, 'late_rej': 0, 'problems': [], 'sample': None,
-           'spell': {}, 'pspell': {}, 'dd': {}}
+           'spell': {}, 'pspell': {}, 'dd': {}, 'layers': {}}
     perkey = {}
     cases = list(globals()[gname](**kwargs))
     mine = [c for i, c in enumerate(cases) if i % NSHARD == shard]
@@ -2330,6 +2337,8 @@ def work_a_task(task):
             agg['pspell'][sk] = agg['pspell'].get(sk, 0) + 1
         for sk in default_counters(case):
             agg['dd'][sk] = agg['dd'].get(sk, 0) + 1
+        for sk in layer_counters(case):
+            agg['layers'][sk] = agg['layers'].get(sk, 0) + 1
         if agg['sample'] is None and case['meta'].get('nsrc', 0) >= 3:
             agg['sample'] = {'scn': case['scn'], 'expected': case['exp']}
         if probs:
@@ -2464,6 +2473,17 @@ def tier_b_cases(ck):
     out += [c for c in fam_buildtype_top_flag(pm_max=1 if ck.thorough else 0) if c['meta']['a'] == 1 + seed % 2]
     out += [c for c in fam_buildtype_configure(setup_states=None if ck.thorough else [[]]) if c['meta']['a'] == seed % 2]
     out += list(fam_conf_flag(bases=None if ck.thorough else [['C']]))
+    # ---- the machine-file source given as several layered files: the four disjoint pairs of a matching per project; every
+    # placement x competitors; one assignment (quick: native with two layers, cross for the pairs within a section; thorough: also three layers)
+    for matching in range(len(LAYER_MATCHINGS)):
+        out += list(fam_layers_merged(matching, cross=False, nfiles=2, only_a=(seed + matching) % 3))
+        if ck.thorough or matching == 0:
+            out += list(fam_layers_merged(matching, cross=True, nfiles=2, dict_form=True, mstr=True, only_a=(seed + 1 + matching) % 3,
+                                          comps=(0, 1, 2, 3) if ck.thorough else (0, 3)))
+        if ck.thorough:
+            out += list(fam_layers_merged(matching, cross=bool(matching), nfiles=3, only_a=(seed + 2) % 3, comps=(0, 3)))
+    if os.environ.get('C07_FAMS'):
+        out = [c for c in out if any(x in 'fam_' + c['fam'].replace('machine-', '') for x in os.environ['C07_FAMS'].split(','))]
     for c in out:
         c['compare_a'] = not c['scn']['langs']
     return out
@@ -2753,10 +2773,20 @@ def require_prefix_spelling(ck, pspell, tier, sources, hows):
                    'prefix spelling: no tier %s meson configure giving a /usr-like prefix spelled %s' % (tier, how))
 
 
+def require_layers(ck, layc, tier):
+    secs = sorted({(SUB + ':' if place.startswith('sub') else '') + section_of(o) for o, place in LAYER_OPTS})
+    for need in ['option-in-2-of-2-layers', 'option-in-1-of-2-layers', 'later-layer-replaces-value-of-earlier-layer',
+                 'value-of-earlier-layer-stands-while-a-later-layer-has-another-section'] + \
+                ['value-of-earlier-layer-stands-while-a-later-layer-has-the-same-section:' + x for x in secs]:
+        ck.require(layc.get(need, 0) > 0, 'machine-file layers: no tier %s case of class %s' % (tier, need))
+
+
 def main():
     ck = Check('C07', 'exploration')
     if ck.args.replay:
         return replay(ck)
+    if os.environ.get('C07_FAMS'):      # development aid (never part of a real run): the self-checks of the families left out only print
+        ck.require = lambda cond, msg: None if cond else print('C07_FAMS: self-check not met:', msg)
     from verif import mesonproc as mp
     mp.preimport()
     scratch_root()
@@ -2774,8 +2804,11 @@ def main():
         spell = {}
         pspell = {}
         dd = {}
+        layc = {}
         pending = []
         for (sp, sh), agg in zip(tasks, pmap(work_a_task, tasks)):
+            for k, v in agg['layers'].items():
+                layc[k] = layc.get(k, 0) + v
             for k, v in agg['pspell'].items():
                 pspell[k] = pspell.get(k, 0) + v
             for k, v in agg['dd'].items():
@@ -2829,6 +2862,9 @@ def main():
                 kinds={kn: [lit(v) for v in kv['vals']] for kn, kv in DK.items()}, by_place=by_place,
                 declared_default_in_effect_by_type_and_shape=shapes)
         ck.require(not missing, 'declared-default dimension: no tier A case for %d cells, e.g. %s' % (len(missing), missing[:4]))
+        ck.part('tierA_machine_file_layers', cases=fams.get('machine-layers', {}).get('cases', 0), options=[o for o, _ in LAYER_OPTS],
+                layers_per_source=[2, 3] if ck.thorough else [2], observed_options_by_class=dict(sorted(layc.items())))
+        require_layers(ck, layc, 'A')
         ck.require(multi > 1000, 'too few multi-source cases in tier A')
         ck.require(late_rej > 0, 'no pending (late) invalid value was exercised')
         ck.require(tot['rejected_invalid'] > 100 and tot['weak'] > 0 and tot['strong'] > 10000, 'tier A comparison counters')
@@ -2889,6 +2925,13 @@ def main():
         ck.part('tierB_declared_default', setups={fn: fv['setups'] for fn, fv in fams.items() if fn.startswith('default-')},
                 by_place=by_place, declared_default_in_effect_by_type_and_shape=shapes)
         ck.require(not missing, 'declared-default dimension: no tier B setup for %d cells, e.g. %s' % (len(missing), missing[:4]))
+        layc = {}
+        for case in cases:
+            for sk in layer_counters(case):
+                layc[sk] = layc.get(sk, 0) + 1
+        ck.part('tierB_machine_file_layers', setups=fams.get('machine-layers', {}).get('setups', 0),
+                observed_options_by_class=dict(sorted(layc.items())))
+        require_layers(ck, layc, 'B')
         ck.require(len(cases) > 500, 'too few tier B setups')
         ck.require(agree > 0, 'tier A / tier B cross-validation never ran')
         files, argv = b_tree(cases[len(cases) // 2]['scn'])
